@@ -33,6 +33,7 @@ AnyOk == (\E i \in DOMAIN srcs : srcs[i].ok) /\ (bases = <<>> \/ \E i \in DOMAIN
 Eff(o, e) == [o EXCEPT !.focus = IF Len(e.af) > 0 THEN ToSetOf(e.af) ELSE @, !.ignore = IF Len(e.ai) > 0 THEN ToSetOf(e.ai) ELSE @,
                        !.hide = IF Len(e.ah) > 0 THEN ToSetOf(e.ah) ELSE @,
                        !.g = IF e.ag = "" THEN @ ELSE e.ag,
+                       !.tf = IF Len(e.atf) > 0 THEN ToSetOf(e.atf) ELSE @,
                        !.si = IF e.asi > 0 THEN e.asi ELSE @, !.rel = IF e.arel = "" THEN @ ELSE e.arel = "t"]
 \* the named conjuncts of each kind of step; the state after the step
 Checks(e) ==
@@ -63,6 +64,8 @@ ApplyAssign(o, e) == CASE e.opt = "focus"  -> [o EXCEPT !.focus = ToSetOf(e.name
                        [] e.opt = "ignore" -> [o EXCEPT !.ignore = ToSetOf(e.names)]
                        [] e.opt = "hide"   -> [o EXCEPT !.hide = ToSetOf(e.names)]
                        [] e.opt = "show"   -> [o EXCEPT !.show = ToSetOf(e.names)]
+                       [] e.opt = "tf"     -> [o EXCEPT !.tf = ToSetOf(e.names)]
+                       [] e.opt = "ti"     -> [o EXCEPT !.ti = ToSetOf(e.names)]
                        [] e.opt = "g"      -> [o EXCEPT !.g = e.text]
                        [] e.opt = "si"     -> [o EXCEPT !.si = e.n]
                        [] e.opt = "rel"    -> [o EXCEPT !.rel = e.b]
